@@ -243,6 +243,20 @@ def judgeProg (j : JSt) (s : St) (pf : String) : JSt :=
       if r != want then j.flag s!"ref-mismatch op={j.idx} kind=program ref={r} holders={want}{wrapSfx j.pwrap}" else j
     | none => j.flag s!"trace-mismatch op={j.idx} field={pf}"
 
+/-- the function-name strings must be held exactly once per pending call_out and per add_action sentence -/
+def judgeNames (j : JSt) (s : St) (ff : String) : JSt :=
+  let want := ((List.range nCalls).filter (fun k => !isNumRoot s (rCall k))).length +
+              ((List.range nSents).filter (fun k => !isNumRoot s (rSent k))).length
+  if ff == "f:-" then j
+  else match ((ff.drop 2).toString.toInt?) with
+    | some g =>
+      if g != (want : Int) && !j.flagged.contains "fn" then
+        let j := { j with flagged := "fn" :: j.flagged }
+        j.flag (if g > (want : Int) then s!"leak op={j.idx} counter=function_name_string_refs by=+{g - want}"
+                else s!"counter-low op={j.idx} counter=function_name_string_refs by={g - want}")
+      else j
+    | none => j.flag s!"trace-mismatch op={j.idx} field={ff}"
+
 def judgeLine (j : JSt) (op : Option Op) (line : String) : JSt :=
   if j.stop then j else
   let j := { j with idx := j.idx + 1 }
@@ -263,9 +277,9 @@ def judgeLine (j : JSt) (op : Option Op) (line : String) : JSt :=
   | some (.ok s') =>
     let j := noteRanges (noteRanges j j.s) s'
     match toks line with
-    | ["ok", r, st, pf] =>
+    | ["ok", r, st, pf, ff] =>
       match parseField "r:" r, parseField "st:" st with
-      | some rs, some sts => { (judgeProg (judgeOk j s' rs sts) s' pf) with s := s' }
+      | some rs, some sts => { (judgeNames (judgeProg (judgeOk j s' rs sts) s' pf) s' ff) with s := s' }
       | _, _ => { (j.flag s!"trace-mismatch op={j.idx} line={line}") with stop := true }
     | ["skip"] => { (j.flag s!"trace-mismatch op={j.idx} got=skip") with stop := true }
     | _ =>
